@@ -18,6 +18,7 @@ void AddPaths(ClipperDS* self, VTok paths, PathType polytype, bool is_open)
 LOG_REQ(FN_ADDPATHS) LOG_ENS(FN_ADDPATHS, self->tok, paths.tok, polytype, is_open, 0,0, 0,0,0,0)
 __CPROVER_assigns(LOG_ASG(FN_ADDPATHS));
 bool ExecuteInternal(ClipperDS* self, ClipType ct, FillRule fr, bool use_polytrees)
+BOOL_RET
 LOG_REQ(FN_EXECINT) LOG_ENS(FN_EXECINT, self->tok, ct, fr, use_polytrees, __CPROVER_return_value, 0, 0,0,0,0)
 __CPROVER_assigns(LOG_ASG(FN_EXECINT), self->succeeded_);
 void BuildPathsD(ClipperDS* self, VTok* closed, VTok* open)
